@@ -11,7 +11,12 @@ WS = {"engine": "wirespace", "needs": ["hz", "enum", "wirespace"], "level": "exp
 BS = {"engine": "bytespace", "needs": ["hz", "enum", "bytespace"], "level": "exploration",
       "gen": {"quick": ["mx"], "thorough": ["mx"]}}
 
+OS = {"engine": "opspace", "needs": ["hz", "enum", "opspace"], "level": "exploration",
+      "gen": {"quick": ["mx"], "thorough": ["mx"]}}
+
 PROPS = {
+    "C09": dict(OS),
+    "C08": dict(OS, level="model_checking", budget={"quick": "240s", "thorough": "1500s"}),
     "C06": dict(BS),
     "C03": dict(WS),
     "C14": dict(WS),
